@@ -5,6 +5,9 @@
    L <keyspec> [r] | U <keyspec> [r]    keyspec: pkid:label[+pkid:label ...]   (the key, then its subkeys in order);
                                         r = 0..2: answer with the probes of index r mod 3 only and without the filtered fingerprints
    Lrepo <keyspec>                      load through the pre-repair _add_alias (regression demonstration)
+   Lold <keyspec> | Uold <keyspec>      step of the keyring of before commit 48f9d25 (blanks ignored in every identifier); the answer
+                                        evaluates the probes with that membership test / lookup (regression demonstration)
+   unspaced <alias>                     PGPKeyring._unspaced
    msg <issuer> ...                     with keyring.key(message)
    aliases <label>                      aliases_of
    The sort used by _sort_alias is (created, is_public) ascending; when two distinct keys tie the order Python's
@@ -46,18 +49,20 @@ let dump_layers ls =
     String.concat "," (List.map (fun (a, k) -> hex_of_bytes a ^ "=" ^ string_of_int (int_of_z k)) l)) ls)
 let combos = [None; Some true; Some false]
 (* r < 0: every probe and the nine fingerprints() filters; r >= 0: only probes whose index is r modulo 3, no filters *)
-let observe_sel r =
+let observe_with cs gk r =
   let s = !st in
   let sel = List.filteri (fun n _ -> r < 0 || n mod 3 = r) !probes in
   let pr = List.map (fun a ->
-      bool_s (containsS a s.lays) ^ ":" ^ (match get_key s a with Some i -> string_of_int (int_of_z i.kid) | None -> "-")) sel in
+      bool_s (cs a s.lays) ^ ":" ^ (match gk s a with Some i -> string_of_int (int_of_z i.kid) | None -> "-")) sel in
   let fps = if r >= 0 then [] else List.concat_map (fun half -> List.map (fun typ ->
       let l = List.sort_uniq compare (List.map hex_of_bytes (fingerprints s half typ)) in
       if l = [] then "." else String.concat "," l) combos) combos in
   String.concat " " [dump_layers s.lays; ids (List.map (fun i -> i.kid) s.keys); ids s.pubs; ids s.privs;
                      (if pr = [] then "." else String.concat "," pr); String.concat ";" fps;
                      string_of_int (int_of_nat (klen s))]
+let observe_sel r = observe_with containsS get_key r
 let observe () = observe_sel (-1)
+let observe_old () = observe_with containsS_old get_key_old (-1)
 let sel_of = function [] -> -1 | [r] -> int_of_string r | _ -> failwith "args"
 
 let () = run_table [
@@ -71,6 +76,9 @@ let () = run_table [
   "L", (function k :: r -> st := add_key sort_fn !st (parse_key k); observe_sel (sel_of r) | _ -> failwith "args");
   "U", (function k :: r -> st := unload sort_fn !st (parse_key k); observe_sel (sel_of r) | _ -> failwith "args");
   "Lrepo", (function [k] -> st := add_key_with (add_alias_repo sort_fn) !st (parse_key k); observe () | _ -> failwith "args");
+  "Lold", (function [k] -> st := step_old sort_fn !st (Load (parse_key k)); observe_old () | _ -> failwith "args");
+  "Uold", (function [k] -> st := step_old sort_fn !st (Unload (parse_key k)); observe_old () | _ -> failwith "args");
+  "unspaced", (function [a] -> hex_of_bytes (unspaced (bytes_of_hex a)) | _ -> failwith "args");
   "msg", (fun l -> match get_key_issuers !st (List.map bytes_of_hex l) with
       | Some i -> string_of_int (int_of_z i.kid) | None -> "-");
   "aliases", (function [label] ->
